@@ -382,16 +382,32 @@ class ExtraCoords(ExtraCoordsABC):
         return new_extra_coords
 
     def _getitem_wcs(self, item):
-        item = sanitize_slices(item, self.wcs.pixel_n_dim)
+        # The item refers to the array axes of the cube (of this WCS itself if there is no cube).
+        n_pix = self.wcs.pixel_n_dim
+        n_cube = len(self._ndcube.shape) if self._ndcube is not None else n_pix
+        item = sanitize_slices(item, n_cube)
+        # The item of each pixel dimension of this WCS is that of the cube array axis it is mapped to.
+        pixel_items = [item[n_cube - 1 - cube_pixel_axis] for cube_pixel_axis in self.mapping]
 
         # It's valid to slice down the EC such that there is nothing left,
         # which is not a valid way to slice the WCS
-        if len(item) == self.wcs.pixel_n_dim and all(isinstance(i, Integral) for i in item):
+        if all(isinstance(i, Integral) for i in pixel_items):
             return type(self)()
 
-        subwcs = self.wcs[item]
+        # WCS slicing takes the items in array order, i.e. reversed pixel order.
+        wcs_item = tuple(pixel_items[::-1])
+        if hasattr(self.wcs, "__getitem__"):
+            subwcs = self.wcs[wcs_item]
+        else:
+            # e.g. the result of an earlier slice with an integer
+            subwcs = HighLevelWCSWrapper(SlicedLowLevelWCS(self.wcs.low_level_wcs, wcs_item))
 
-        new_mapping = [self.mapping[i] for i, subitem in enumerate(item) if not isinstance(subitem, Integral)]
+        # Surviving pixel dimensions stay mapped to the same cube axes, renumbered for the cube axes dropped.
+        dropped_cube_pixel_axes = [n_cube - 1 - array_axis for array_axis, subitem in enumerate(item)
+                                   if isinstance(subitem, Integral)]
+        new_mapping = [cube_pixel_axis - sum(dropped < cube_pixel_axis for dropped in dropped_cube_pixel_axes)
+                       for cube_pixel_axis, subitem in zip(self.mapping, pixel_items)
+                       if not isinstance(subitem, Integral)]
 
         new_ec = type(self)()
         new_ec.wcs = subwcs
